@@ -23,7 +23,11 @@ import (
 
 // Run the given code in a new Virtual Machine and return the result.
 func Run(ctx context.Context, main *compiler.Code, options ...Option) (object.Object, error) {
-	machine := New(main, options...)
+	machine, err := createVM(options)
+	if err != nil {
+		return nil, err
+	}
+	machine.main = main
 	if err := machine.Run(ctx); err != nil {
 		return nil, err
 	}
